@@ -29,32 +29,6 @@ example : lexString (renderVal (.str "x' OR '1'='1".toList) ++ " AND b = 2".toLi
 
 /-! ## T2 -/
 
-/-- the first character of the value's text does not continue the token pending in mode `m`
-(a `-` after `-` would start a comment, a quote after a closing quote would double it) -/
-def headOk (m : Mode) (v : PVal) : Bool :=
-  match renderVal v with
-  | [] => false
-  | c :: _ => leaves m c
-
-/-- a string value must not be followed directly by a quote -/
-def tailOk (v : PVal) (T : Str) : Bool :=
-  !isStrVal v || (match T with | [] => true | c :: _ => c ≠ '\'')
-
-/-- every `?` of `sql` (scanned from mode `m`) is in code position, there are exactly as many
-values as placeholders, the values are well formed and none of them merges with its neighbours -/
-def bindSafe : Mode → Str → List PVal → Bool
-  | _, [], vs => vs.isEmpty
-  | m, c :: cs, vs =>
-    if c = '?' then
-      match vs with
-      | [] => false
-      | v :: vs' =>
-        codeMode m && v.wf && headOk m v && tailOk v (substitute cs vs') && bindSafe .norm cs vs'
-    else
-      match stepMode false m c with
-      | .ok (_, m') => bindSafe m' cs vs
-      | .error _ => true
-
 /-- the full statement: binding never changes the structure of the statement -/
 def C30_structure_full : Prop :=
   ∀ (sql : Str) (vs : List PVal), countQ sql = vs.length → (∀ v ∈ vs, v.wf = true) →
